@@ -11,6 +11,13 @@ use std::{
 
 pub type TranspositionTable = HashMap<u64, TableEntry, BuildNoHashHasher<u64>>;
 
+/// Deepest iteration of the iterative deepening.
+///
+/// The per-ply killer table is sized by it, depths are counted in `u8`, and the game's
+/// 512-entry state stack must hold the game so far (at most 400 entries through UCI)
+/// plus the search line and its quiescence extension.
+const MAX_SEARCH_DEPTH: u8 = 64;
+
 #[derive(Clone, Copy, PartialEq, Eq, Debug)]
 enum NodeType {
     Exact,
@@ -340,7 +347,7 @@ pub fn get_best_move_entry(
         return Some((moves.first().copied(), 0, true));
     }
 
-    let mut killer_moves = [None; 32];
+    let mut killer_moves = [None; MAX_SEARCH_DEPTH as usize];
     let mut best_move = None;
     let mut best_score = Score::MIN + 1;
 
@@ -466,7 +473,7 @@ pub fn get_best_move_until_stop(
         })
         .unwrap_or(1);
 
-    for depth in starting_depth.. {
+    for depth in starting_depth.min(MAX_SEARCH_DEPTH)..=MAX_SEARCH_DEPTH {
         let Some((best_move, best_score, is_only_move)) =
             get_best_move_entry(game.clone(), continue_running, depth, table, &mut history)
         else {
@@ -507,5 +514,6 @@ pub fn get_best_move_until_stop(
         }
     }
 
-    unreachable!()
+    // The deepest supported iteration is complete
+    found_move
 }
